@@ -25,6 +25,8 @@ func runC16(ctx *Ctx) {
 	defer ls.run(ctx)
 	pgi := newCorr("pageinfo")
 	defer pgi.run(ctx)
+	nsc := newCorr("numberscan")
+	defer nsc.run(ctx)
 	run := func(c pagerCase) {
 		defer func() {
 			if r := recover(); r != nil {
@@ -41,6 +43,7 @@ func runC16(ctx *Ctx) {
 		targets := anchorTargets(d.Root, page)
 		addLinkScoreCases(ls, rep, c.HTML, page, c)
 		addPageInfoCases(pgi, rep, c.HTML, page, c)
+		addNumberScanCase(nsc, rep, c.HTML, page, c)
 		for _, algo := range []distiller.PaginationAlgo{distiller.PrevNext, distiller.PageNumber} {
 			name := "prevnext"
 			if algo == distiller.PageNumber {
